@@ -353,6 +353,64 @@ def names(rc):
                             f"split into its elements (assertions about variables that do not exist), an int name raises", construct=f"{f.qual} bare node {e.id} in assertion")
     if n_as < 3:
         raise AnalysisError(f"C16.names: expected the assertion-building sites of DAG and MarkovNetwork, found {n_as}")
+    # elements of a caller's node / edge list are never judged by truthiness: 0, '' and False are legal node names, so `if not all(edge[:2]): continue` or
+    # `if node:` silently skips them
+    n_loops = 0
+    for f in repo.all_functions():
+        if not (f.file.startswith("pgmpy/base/") or f.file in files) or f.cls is None:
+            continue
+        params = set(f.params[1:])
+        for lp in ast.walk(f.node):
+            if not isinstance(lp, (ast.For, ast.comprehension)):
+                continue
+            src = lp.iter
+            while isinstance(src, (ast.Subscript, ast.Call)) and not isinstance(src, ast.Name):
+                src = src.value if isinstance(src, ast.Subscript) else (src.args[0] if src.args else None)
+                if src is None:
+                    break
+            if not (isinstance(src, ast.Name) and src.id in params):
+                continue
+            n_loops += 1
+            lv = {x.id for x in ast.walk(lp.target) if isinstance(x, ast.Name)}
+            tests = []
+            body_nodes = lp.body if isinstance(lp, ast.For) else []
+            for st in body_nodes:
+                for n in ast.walk(st):
+                    if isinstance(n, (ast.If, ast.IfExp, ast.While)):
+                        tests.append(n.test)
+            if isinstance(lp, ast.comprehension):
+                tests += lp.ifs
+            for t in tests:
+                for leaf in _leaves(t):
+                    base = leaf
+                    if isinstance(leaf, ast.Call) and isinstance(leaf.func, ast.Name) and leaf.func.id in ("all", "any") and leaf.args:
+                        base = leaf.args[0]
+                    elif isinstance(leaf, ast.Call):
+                        continue
+                    while isinstance(base, ast.Subscript):
+                        base = base.value
+                    if isinstance(base, ast.Name) and base.id in lv and not isinstance(leaf, ast.Compare):
+                        rc.fail(f, t, f"{f.qual}: `{norm(leaf, 40)}` judges an element of the caller's `{src.id}` by truthiness: nodes named 0, '' or False (and edges touching them) are "
+                                "silently treated as absent", construct=f"{f.qual} truthiness of element of {src.id}")
+    rc.ob(f"{n_loops} loop(s) over caller-supplied node / edge lists in graph and model classes: no element judged by truthiness")
+    # presence in a mapping of states / evidence is tested with `in` or `is None`: `if d.get(k):` is also false for the legitimate state 0 (or '')
+    n_get = 0
+    for f in repo.all_functions():
+        if not f.file.startswith(("pgmpy/inference/", "pgmpy/models/", "pgmpy/sampling/", "pgmpy/base/", "pgmpy/factors/", "pgmpy/estimators/")):
+            continue
+        for n in ast.walk(f.node):
+            tests = []
+            if isinstance(n, (ast.If, ast.IfExp, ast.While)):
+                tests.append(n.test)
+            if isinstance(n, ast.comprehension):
+                tests += n.ifs
+            for t in tests:
+                for leaf in _leaves(t):
+                    if isinstance(leaf, ast.Call) and isinstance(leaf.func, ast.Attribute) and leaf.func.attr == "get" and len(leaf.args) == 1 and not leaf.keywords:
+                        n_get += 1
+                        rc.fail(f, t, f"{f.qual}: `{norm(leaf, 50)}` is tested by truthiness: a stored state / value 0 (or '') counts as absent — test `key in mapping` or `is None`",
+                                construct=f"{f.qual} truthiness of {norm(leaf, 40)}")
+    rc.ob(f"mapping lookups `.get(key)` used as conditions: {n_get}")
     # a node name that becomes part of a label (column name) goes through str(): `name + "_"` raises for every non-string node name
     n_cat = 0
     for f in repo.all_functions():
@@ -427,6 +485,15 @@ def shims(rc):
     mod = repo.module("pgmpy/utils/compat_fns.py")
     n = 0
     for f in mod.functions.values():
+        # no shim edits the numbers it was given: no item store into an array, no rounding except to_numpy's explicit `decimals`
+        for st in ast.walk(f.node):
+            tg = st.targets if isinstance(st, ast.Assign) else ([st.target] if isinstance(st, ast.AugAssign) else [])
+            for t in tg:
+                if isinstance(t, ast.Subscript):
+                    rc.fail(f, st, f"compat_fns.{f.name}: `{norm(st, 60)}` overwrites entries of the array it converts: every caller (writers, samplers, factor algebra) sees changed numbers",
+                            construct=f"compat_fns.{f.name} item store")
+            if isinstance(st, ast.Call) and call_name(st) in ("round", "around", "clip", "nan_to_num", "where") and not (call_name(st) == "round" and st.args and dotted(st.args[0]) == "decimals"):
+                rc.fail(f, st, f"compat_fns.{f.name}: `{norm(st, 60)}` alters the values it passes on", construct=f"compat_fns.{f.name} alters values")
         rets = [r for r in ast.walk(f.node) if isinstance(r, ast.Return) and r.value is not None]
         calls = []
         for r in rets:
